@@ -283,6 +283,9 @@ fn work(args: &Args) -> Vec<(usize, usize, u64)> {
         let bits = d.relevant_bits();
         let dev_specific_unknown: u64 = 0x0000_0000_00ff_ffc0 & !d.relevant_bits().iter().fold(0u64, |m, b| m | 1 << b);
         for (ki, k) in ALL_KINDS.iter().enumerate() {
+            if args.is_miri() && !k.is_model() {
+                continue;
+            }
             let all_subsets = k.is_model() || args.thorough();
             let n = 1u64 << bits.len();
             let mut rng = Rng::derive(args.seed, 0xC08, di as u64, ki as u64);
@@ -309,14 +312,15 @@ fn work(args: &Args) -> Vec<(usize, usize, u64)> {
             }
         }
     }
+    if args.is_miri() {
+        // a sample of the model-transport cases (every 97th): enough for the interpreter to see every driver's construction and usage script
+        w = w.into_iter().step_by(97).collect();
+    }
     w
 }
 
 pub fn run(args: &Args, sh: &mut Shard) {
-    if args.is_miri() {
-        sh.inconclusive.push("driver-level checks use fabricated MMIO addresses for the real transports; C08 is not run under Miri".into());
-        return;
-    }
+    crate::xport_any::set_model_only(args.is_miri());
     if let Some(r) = &args.replay {
         let di = r.get("driver").and_then(|x| x.as_u64()).unwrap_or(0) as usize;
         let ki = r.get("transport").and_then(|x| x.as_u64()).unwrap_or(0) as usize;
